@@ -1570,6 +1570,9 @@ class Interp:
         it = self.eval(e["e"])
         if isinstance(it, MutList):
             it = ("list", list(it))
+        if isinstance(it, tuple) and it[:1] == ("bytesof",):
+            raw = it[1] if isinstance(it[1], bytes) else it[1].encode()
+            it = ("list", list(raw))
         if isinstance(it, tuple) and it[0] == "list":
             for x in it[1]:
                 self.scopes.append({})
